@@ -92,6 +92,22 @@ Section Generic.
     specialize (IH _ H3 Hi). lia.
   Qed.
 
+  Lemma sorted_from_le l : forall lo lo', sorted_from lo l -> lo' <= lo -> sorted_from lo' l.
+  Proof.
+    destruct l as [|e r]; intros lo lo' H Hle; [exact I|].
+    destruct H as (H1 & H2 & H3). cbn [sorted_from]. repeat split; [lia|exact H2|exact H3].
+  Qed.
+
+  Lemma sorted_app l1 : forall lo hi l2, sorted_from lo l1 -> (forall e, In e l1 -> snd (se e) < hi) -> lo <= hi ->
+    sorted_from hi l2 -> sorted_from lo (l1 ++ l2).
+  Proof.
+    induction l1 as [|e r IH]; intros lo hi l2 H1 Hb Hle H2; cbn [app].
+    - apply (sorted_from_le l2 hi lo H2 Hle).
+    - destruct H1 as (A1 & A2 & A3). cbn [sorted_from]. split; [exact A1|]. split; [exact A2|].
+      apply (IH _ hi); [exact A3|intros e' He'; apply Hb; right; exact He'| |exact H2].
+      specialize (Hb e (or_introl eq_refl)). lia.
+  Qed.
+
   Lemma sorted_idx_lt l : forall lo, sorted_from lo l ->
     forall a b, 0 <= a < b -> b < zlen l -> snd (se (znth d l a)) < fst (se (znth d l b)).
   Proof.
@@ -218,15 +234,18 @@ Section Generic.
       apply andb_true_intro. split; apply Z.leb_le; lia.
   Qed.
 
-  (* enumeration by concatenated per-segment lists against a lookup characterised per segment *)
-  Context (seg : A -> list (Z * Z)) (gl : A -> Z -> Z) (lookup : Z -> res (Z * bool)).
+  (* enumeration by concatenated per-segment lists against a lookup characterised per segment;
+     `mp e r` = rune r of segment e is mapped (a segment may leave out runes of its interval) *)
+  Context (seg : A -> list (Z * Z)) (gl : A -> Z -> Z) (mp : A -> Z -> bool) (lookup : Z -> res (Z * bool)).
 
   Definition seg_ok (e : A) : Prop :=
-    NoDup (map fst (seg e)) /\ forall r g, In (r, g) (seg e) <-> (contains e r /\ g = gl e r).
+    NoDup (map fst (seg e)) /\
+    forall r g, In (r, g) (seg e) <-> (contains e r /\ mp e r = true /\ g = gl e r).
 
   Definition lookup_char (l : list A) : Prop :=
     forall r, int32_ok r ->
-      (exists e, In e l /\ contains e r /\ lookup r = Ok (gl e r, true))
+      (exists e, In e l /\ contains e r /\
+                 lookup r = if mp e r then Ok (gl e r, true) else Ok (0, false))
       \/ ((forall e, In e l -> ~ contains e r) /\ lookup r = Ok (0, false)).
 
   Lemma flat_nodup l : forall lo, sorted_from lo l -> (forall e, In e l -> seg_ok e) ->
@@ -253,27 +272,42 @@ Section Generic.
     intros Hs Hok Hch. split; [exact (proj1 (flat_nodup l lo Hs Hok))|].
     intros r g Hr. split.
     - intros Hi. apply in_flat_map in Hi. destruct Hi as (e & He & Hi).
-      apply (proj2 (Hok e He)) in Hi. destruct Hi as (Hc & ->).
+      apply (proj2 (Hok e He)) in Hi. destruct Hi as (Hc & Hm & ->).
       destruct (Hch r Hr) as [(e' & He' & Hc' & Hl)|(Hn & _)].
-      + rewrite (sorted_unique l lo r e e' Hs He He' Hc Hc'). exact Hl.
+      + rewrite <- (sorted_unique l lo r e e' Hs He He' Hc Hc') in Hl. rewrite Hm in Hl. exact Hl.
       + exfalso. apply (Hn e He Hc).
     - intros Hl. destruct (Hch r Hr) as [(e & He & Hc & Hl')|(_ & Hl')].
-      + rewrite Hl' in Hl. injection Hl as <-.
-        apply in_flat_map. exists e. split; [exact He|].
-        apply (proj2 (Hok e He)). split; [exact Hc|reflexivity].
+      + destruct (mp e r) eqn:Hm.
+        * rewrite Hl' in Hl. injection Hl as <-.
+          apply in_flat_map. exists e. split; [exact He|].
+          apply (proj2 (Hok e He)). split; [exact Hc|]. split; [exact Hm|reflexivity].
+        * rewrite Hl' in Hl. discriminate Hl.
       + rewrite Hl' in Hl. discriminate Hl.
   Qed.
 
-  Lemma generic_ranges lo l : sorted_from lo l -> lookup_char l ->
+  (* the domain of the lookup: the mapped runes of the segments *)
+  Lemma generic_domain lo l : sorted_from lo l -> lookup_char l ->
+    forall r, int32_ok r ->
+      ((exists g, lookup r = Ok (g, true)) <-> exists e, In e l /\ contains e r /\ mp e r = true).
+  Proof.
+    intros Hs Hch r Hr. split.
+    - intros (g & Hl). destruct (Hch r Hr) as [(e & He & Hc & Hl')|(_ & Hl')].
+      + exists e. split; [exact He|]. split; [exact Hc|].
+        destruct (mp e r); [reflexivity|]. rewrite Hl' in Hl. discriminate Hl.
+      + rewrite Hl' in Hl. discriminate Hl.
+    - intros (e & He & Hc & Hm). destruct (Hch r Hr) as [(e' & He' & Hc' & Hl)|(Hn & _)].
+      + rewrite <- (sorted_unique l lo r e e' Hs He He' Hc Hc') in Hl. rewrite Hm in Hl.
+        eexists. exact Hl.
+      + exfalso. apply (Hn e He Hc).
+  Qed.
+
+  Lemma generic_ranges lo l : (forall e r, mp e r = true) -> sorted_from lo l -> lookup_char l ->
     ranges_are_domain (rune_ranges (map se l)) lookup.
   Proof.
-    intros Hs Hch r Hr. rewrite (rune_ranges_sorted lo l Hs). rewrite in_ranges_map. split.
-    - intros (e & He & Hc). destruct (Hch r Hr) as [(e' & He' & Hc' & Hl)|(Hn & _)].
-      + eexists. exact Hl.
-      + exfalso. apply (Hn e He Hc).
-    - intros (g & Hl). destruct (Hch r Hr) as [(e & He & Hc & Hl')|(_ & Hl')].
-      + exists e. split; assumption.
-      + rewrite Hl' in Hl. discriminate Hl.
+    intros Hall Hs Hch r Hr. rewrite (rune_ranges_sorted lo l Hs). rewrite in_ranges_map.
+    rewrite (generic_domain lo l Hs Hch r Hr). split.
+    - intros (e & He & Hc). exists e. split; [exact He|]. split; [exact Hc|apply Hall].
+    - intros (e & He & Hc & _). exists e. split; assumption.
   Qed.
 End Generic.
 
@@ -286,8 +320,7 @@ Definition glyph12 (is13 : bool) (e : grp) (c : Z) : Z :=
   if is13 then g_gid e else wrap32 (c - g_start e + g_gid e).
 
 Lemma wf_grp_prop is13 e : wf_grp is13 e = true ->
-  0 <= g_start e /\ g_start e <= g_end e /\ g_end e < 2147483648 /\ 0 <= g_gid e /\
-  (if is13 then g_gid e < 4294967296 else g_gid e + (g_end e - g_start e) < 4294967296).
+  0 <= g_start e /\ g_start e <= g_end e /\ g_end e < 2147483648 /\ 0 <= g_gid e /\ g_gid e < 4294967296.
 Proof.
   unfold wf_grp. intros H.
   repeat (apply andb_prop in H; destruct H as (H & ?)).
@@ -295,8 +328,7 @@ Proof.
   | H : (_ <=? _) = true |- _ => apply Z.leb_le in H
   | H : (_ <? _) = true |- _ => apply Z.ltb_lt in H
   end.
-  repeat split; try lia.
-  destruct is13; apply Z.ltb_lt; assumption.
+  repeat split; lia.
 Qed.
 
 Lemma wf_cmap12_sorted is13 s : forall lo, wf_cmap12_from is13 lo s = true ->
@@ -333,7 +365,9 @@ Proof.
     reflexivity.
 Qed.
 
-Lemma iter12_seg_ok is13 e : wf_grp is13 e = true -> seg_ok se12 (iter12_seg is13) (glyph12 is13) e.
+Definition mp_all {A : Type} (_ : A) (_ : Z) : bool := true.
+
+Lemma iter12_seg_ok is13 e : wf_grp is13 e = true -> seg_ok se12 (iter12_seg is13) (glyph12 is13) mp_all e.
 Proof.
   intros H. apply wf_grp_prop in H. destruct H as (H1 & H2 & H3 & H4 & H5).
   unfold seg_ok, iter12_seg, contains, se12. cbn [fst snd].
@@ -346,14 +380,14 @@ Proof.
   - intros r g. rewrite in_map_iff. split.
     + intros (p & Heq & Hp). apply In_zrange in Hp.
       injection Heq as Hr Hg. rewrite sint32_small in Hr by lia. subst r.
-      split; [lia|]. subst g. unfold glyph12. destruct is13; [reflexivity|]. f_equal. lia.
-    + intros (Hc & ->). exists (r - g_start e). split.
+      split; [lia|]. split; [reflexivity|]. subst g. unfold glyph12. destruct is13; [reflexivity|]. f_equal. lia.
+    + intros (Hc & _ & ->). exists (r - g_start e). split.
       * rewrite sint32_small by lia. f_equal. lia.
       * apply In_zrange. lia.
 Qed.
 
 Lemma lookup12_char is13 s : wf_cmap12_from is13 0 s = true ->
-  lookup_char se12 (glyph12 is13)
+  lookup_char se12 (glyph12 is13) mp_all
     (fun r => lookup12_loop (S (length s)) is13 s (wrap32 r) 0 (zlen s)) s.
 Proof.
   intros H. destruct (wf_cmap12_sorted _ _ _ H) as (Hs & Hwf).
@@ -378,7 +412,7 @@ Lemma iter12_gen is13 s : wf_cmap12_from is13 0 s = true ->
     (fun r => lookup12_loop (S (length s)) is13 s (wrap32 r) 0 (zlen s)).
 Proof.
   intros H. destruct (wf_cmap12_sorted _ _ _ H) as (Hs & Hwf).
-  apply (generic_agree se12 (iter12_seg is13) (glyph12 is13) _ 0 s Hs).
+  apply (generic_agree se12 (iter12_seg is13) (glyph12 is13) mp_all _ 0 s Hs).
   - intros e He. apply iter12_seg_ok. apply Hwf. exact He.
   - apply lookup12_char. exact H.
 Qed.
@@ -390,7 +424,7 @@ Proof.
   intros H. destruct (wf_cmap12_sorted _ _ _ H) as (Hs & Hwf).
   unfold rune_ranges12.
   rewrite (map_ext_in _ se12).
-  - apply (generic_ranges se12 (glyph12 is13) _ 0 s Hs). apply lookup12_char. exact H.
+  - apply (generic_ranges se12 (glyph12 is13) mp_all _ 0 s (fun _ _ => eq_refl) Hs). apply lookup12_char. exact H.
   - intros e He. pose proof (wf_grp_prop _ _ (Hwf e He)) as Hp. unfold se12.
     rewrite !sint32_small by lia. reflexivity.
 Qed.
@@ -417,6 +451,12 @@ Definition glyph4 (e : seg4) (c : Z) : Z :=
   | None => wrap16 (c + s4_delta e)
   | Some ix => wrap16 (znth 0 ix (c - s4_start e) + s4_delta e)
   end.
+(* rune c of segment e is mapped: its glyph index array entry, if any, is not 0 *)
+Definition mp4 (e : seg4) (c : Z) : bool :=
+  match s4_idx e with
+  | None => true
+  | Some ix => negb (znth 0 ix (c - s4_start e) =? 0)
+  end.
 
 (* what cmap4.Lookup does once the segment is found *)
 Definition look4_at (e : seg4) (c : Z) : res (Z * bool) :=
@@ -436,9 +476,9 @@ Definition seg4p (e : seg4) : list (Z * Z) :=
       map (fun p => (p + s4_start e, wrap16 (wrap16 p + s4_start e + s4_delta e)))
           (zrange 0 (Z.to_nat (wrap16 (s4_end e - s4_start e) + 1)))
   | Some ix =>
-      map (fun p => let g := znth 0 ix p in
-                    (p + s4_start e, if g =? 0 then 0 else wrap16 (g + s4_delta e)))
-          (zrange 0 (length ix))
+      flat_map (fun p => let g := znth 0 ix p in
+                         if g =? 0 then [] else [(p + s4_start e, wrap16 (g + s4_delta e))])
+               (zrange 0 (length ix))
   end.
 
 Lemma wf_seg4_prop e : wf_seg4 e = true ->
@@ -447,7 +487,7 @@ Lemma wf_seg4_prop e : wf_seg4 e = true ->
   match s4_idx e with
   | None => True
   | Some ix => zlen ix = s4_end e - s4_start e + 1 /\
-               forall k, 0 <= k < zlen ix -> 0 < znth 0 ix k <= 65535
+               forall k, 0 <= k < zlen ix -> 0 <= znth 0 ix k <= 65535
   end.
 Proof.
   unfold wf_seg4. intros H.
@@ -461,7 +501,7 @@ Proof.
   apply Z.eqb_eq in Hl. split; [exact Hl|].
   intros k Hk. rewrite forallb_forall in Hf.
   specialize (Hf _ (znth_In 0 ix k Hk)). apply andb_prop in Hf. destruct Hf as (Hf1 & Hf2).
-  apply Z.ltb_lt in Hf1. apply Z.leb_le in Hf2. lia.
+  apply Z.leb_le in Hf1. apply Z.leb_le in Hf2. lia.
 Qed.
 
 Lemma wf_cmap4_sorted s : forall lo, wf_cmap4_from lo s = true ->
@@ -498,16 +538,16 @@ Proof.
     reflexivity.
 Qed.
 
-Lemma look4_at_wf e c : wf_seg4 e = true -> contains se4 e c -> look4_at e c = Ok (glyph4 e c, true).
+Lemma look4_at_wf e c : wf_seg4 e = true -> contains se4 e c ->
+  look4_at e c = if mp4 e c then Ok (glyph4 e c, true) else Ok (0, false).
 Proof.
   intros H Hc. apply wf_seg4_prop in H. destruct H as (H1 & H2 & H3 & H4 & H5).
   unfold contains, se4 in Hc. cbn [fst snd] in Hc.
-  unfold look4_at, glyph4. destruct (s4_idx e) as [ix|]; [|reflexivity].
+  unfold look4_at, glyph4, mp4. destruct (s4_idx e) as [ix|]; [|reflexivity].
   destruct H5 as (Hl & Hf). cbv zeta.
   rewrite (wrap16_small (c - s4_start e)) by lia.
   destruct (Z.leb_spec (zlen ix) (c - s4_start e)); [lia|].
-  specialize (Hf (c - s4_start e)).
-  destruct (Z.eqb_spec (znth 0 ix (c - s4_start e)) 0); [lia|reflexivity].
+  destruct (Z.eqb_spec (znth 0 ix (c - s4_start e)) 0); reflexivity.
 Qed.
 
 Lemma iter4_seg_wf e : wf_seg4 e = true -> iter4_seg e = Ok (seg4p e).
@@ -524,34 +564,52 @@ Proof.
   cbn [bind]. rewrite IH by (intros; apply H; right; assumption). reflexivity.
 Qed.
 
-Lemma seg4p_ok e : wf_seg4 e = true -> seg_ok se4 seg4p glyph4 e.
+(* an enumeration that yields at most one pair per position, with rune = position + s *)
+Lemma nodup_flat_zrange (f : Z -> list (Z * Z)) s :
+  (forall p, f p = [] \/ exists g, f p = [(p + s, g)]) ->
+  forall n lo, NoDup (map fst (flat_map f (zrange lo n))) /\
+               forall x, In x (map fst (flat_map f (zrange lo n))) -> lo + s <= x.
+Proof.
+  intros Hf. induction n as [|n IH]; intros lo; cbn [zrange flat_map].
+  - split; [constructor|intros x []].
+  - destruct (IH (lo + 1)) as (N & B).
+    destruct (Hf lo) as [->|(g & ->)]; cbn [app map fst].
+    + split; [exact N|]. intros x Hx. apply B in Hx. lia.
+    + split.
+      * constructor; [|exact N]. intros Hx. apply B in Hx. lia.
+      * intros x [<-|Hx]; [lia|]. apply B in Hx. lia.
+Qed.
+
+Lemma seg4p_ok e : wf_seg4 e = true -> seg_ok se4 seg4p glyph4 mp4 e.
 Proof.
   intros H. apply wf_seg4_prop in H. destruct H as (H1 & H2 & H3 & H4 & H5).
-  unfold seg_ok, seg4p, glyph4, contains, se4. cbn [fst snd].
+  unfold seg_ok, seg4p, glyph4, mp4, contains, se4. cbn [fst snd].
   destruct (s4_idx e) as [ix|].
   - destruct H5 as (Hl & Hf). split.
-    + rewrite map_map. cbn [fst]. rewrite map_add_zrange. apply NoDup_zrange.
-    + intros r g. rewrite in_map_iff. split.
-      * intros (p & Heq & Hp). apply In_zrange in Hp. fold (zlen ix) in Hp.
-        cbv zeta in Heq. injection Heq as Hr Hg. subst r.
-        split; [lia|]. subst g. replace (p + s4_start e - s4_start e) with p by lia.
-        specialize (Hf p). destruct (Z.eqb_spec (znth 0 ix p) 0); [lia|reflexivity].
-      * intros (Hc & ->). exists (r - s4_start e). split.
-        -- cbv zeta. specialize (Hf (r - s4_start e)).
-           destruct (Z.eqb_spec (znth 0 ix (r - s4_start e)) 0); [lia|]. f_equal. lia.
+    + apply (nodup_flat_zrange _ (s4_start e)). intros p. cbv zeta.
+      destruct (znth 0 ix p =? 0); [left; reflexivity|right; eexists; reflexivity].
+    + intros r g. rewrite in_flat_map. split.
+      * intros (p & Hp & Hi). apply In_zrange in Hp. fold (zlen ix) in Hp. cbv zeta in Hi.
+        destruct (Z.eqb_spec (znth 0 ix p) 0) as [Hz|Hz]; [destruct Hi|].
+        destruct Hi as [Heq|[]]. injection Heq as <- <-.
+        split; [lia|]. replace (p + s4_start e - s4_start e) with p by lia.
+        split; [|reflexivity].
+        destruct (Z.eqb_spec (znth 0 ix p) 0); [contradiction|reflexivity].
+      * intros (Hc & Hm & ->). exists (r - s4_start e). split.
         -- apply In_zrange. fold (zlen ix). lia.
+        -- cbv zeta. apply Bool.negb_true_iff in Hm. rewrite Hm. left. f_equal. lia.
   - rewrite (wrap16_small (s4_end e - s4_start e)) by lia. split.
     + rewrite map_map. cbn [fst]. rewrite map_add_zrange. apply NoDup_zrange.
     + intros r g. rewrite in_map_iff. split.
       * intros (p & Heq & Hp). apply In_zrange in Hp.
-        injection Heq as Hr Hg. subst r. split; [lia|]. subst g.
+        injection Heq as Hr Hg. subst r. split; [lia|]. split; [reflexivity|]. subst g.
         rewrite (wrap16_small p) by lia. f_equal; lia.
-      * intros (Hc & ->). exists (r - s4_start e). split.
+      * intros (Hc & _ & ->). exists (r - s4_start e). split.
         -- rewrite (wrap16_small (r - s4_start e)) by lia. f_equal; [lia|f_equal; lia].
         -- apply In_zrange. lia.
 Qed.
 
-Lemma lookup4_char s : wf_cmap4 s = true -> lookup_char se4 glyph4 (lookup4 s) s.
+Lemma lookup4_char s : wf_cmap4 s = true -> lookup_char se4 glyph4 mp4 (lookup4 s) s.
 Proof.
   intros H. destruct (wf_cmap4_sorted _ _ H) as (Hs & Hwf).
   intros r Hr. unfold int32_ok in Hr. unfold lookup4. rewrite lookup4_loop_bs.
@@ -575,15 +633,167 @@ Lemma iter4_eq_lookup4 : forall s, wf_cmap4 s = true -> exists l, iter4 s = Ok l
 Proof.
   intros s H. destruct (wf_cmap4_sorted _ _ H) as (Hs & Hwf).
   exists (flat_map seg4p s). split; [apply iter4_wf; exact Hwf|].
-  apply (generic_agree se4 seg4p glyph4 _ 0 s Hs).
+  apply (generic_agree se4 seg4p glyph4 mp4 _ 0 s Hs).
   - intros e He. apply seg4p_ok. apply Hwf. exact He.
   - apply lookup4_char. exact H.
+Qed.
+
+(* ---- RuneRanges of format 4: the maximal runs of mapped runes ---- *)
+
+(* a list of ranges as its own list of segments *)
+Definition idr (ab : Z * Z) : Z * Z := ab.
+
+Lemma in_ranges_cons a b l x : in_ranges ((a, b) :: l) x = ((a <=? x) && (x <=? b)) || in_ranges l x.
+Proof. reflexivity. Qed.
+
+Lemma in_ranges_app l1 l2 x : in_ranges (l1 ++ l2) x = in_ranges l1 x || in_ranges l2 x.
+Proof. apply existsb_app. Qed.
+
+Lemma in_ranges_one a b x : in_ranges [(a, b)] x = true <-> a <= x <= b.
+Proof.
+  rewrite in_ranges_cons. cbn [in_ranges existsb]. rewrite Bool.orb_false_r.
+  rewrite Bool.andb_true_iff, !Z.leb_le. reflexivity.
+Qed.
+
+(* RuneRanges is the identity on ranges with each start after the previous end *)
+Lemma rune_ranges_sep lo l : sorted_from idr lo l -> rune_ranges l = l.
+Proof.
+  intros H. pose proof (rune_ranges_sorted idr lo l H) as E.
+  unfold idr in E. rewrite map_id in E. exact E.
+Qed.
+
+Lemma sorted_ranges_bool l : forall lo, sorted_from idr lo l -> (forall ab, In ab l -> snd ab < 16777216) ->
+  ranges_sorted_from lo l = true.
+Proof.
+  induction l as [|(a, b) r IH]; intros lo H Hb; [reflexivity|].
+  destruct H as (H1 & H2 & H3). unfold idr in H1, H2, H3. cbn [fst snd] in H1, H2, H3.
+  pose proof (Hb (a, b) (or_introl eq_refl)) as Hb1. cbn [snd] in Hb1.
+  cbn [ranges_sorted_from]. rewrite (IH (b + 1)); [|exact H3|intros ab Hi; apply Hb; right; exact Hi].
+  rewrite Bool.andb_true_r.
+  apply andb_true_intro. split; [apply andb_true_intro; split|].
+  - apply Z.leb_le. exact H1.
+  - apply Z.leb_le. exact H2.
+  - apply Z.ltb_lt. exact Hb1.
+Qed.
+
+(* nz_runs yields sorted, separated, non-empty runs inside the array's rune interval, covering exactly the run in
+   progress and the positions with a non-zero entry *)
+Lemma nz_runs_spec : forall ix pos run lo,
+  match run with Some a => lo <= a < pos | None => lo <= pos end ->
+  sorted_from idr lo (nz_runs pos ix run) /\
+  (forall ab, In ab (nz_runs pos ix run) -> snd ab <= pos + zlen ix - 1) /\
+  (forall x, in_ranges (nz_runs pos ix run) x = true <->
+     match run with Some a => a <= x < pos | None => False end \/
+     (pos <= x < pos + zlen ix /\ znth 0 ix (x - pos) <> 0)).
+Proof.
+  induction ix as [|g r IH]; intros pos run lo Hrun.
+  - cbn [nz_runs]. rewrite zlen_nil. destruct run as [a|].
+    + cbn [sorted_from idr fst snd]. split; [lia|]. split.
+      * intros ab [<-|[]]. cbn [snd]. lia.
+      * intros x. rewrite in_ranges_one. lia.
+    + split; [exact I|]. split; [intros ab []|]. intros x. cbn [in_ranges existsb].
+      split; [discriminate|]. intros [[]|Hx]. lia.
+  - cbn [nz_runs]. rewrite zlen_cons. pose proof (zlen_nonneg r) as Hr.
+    assert (Hz : forall x, pos < x -> znth 0 (g :: r) (x - pos) = znth 0 r (x - (pos + 1))).
+    { intros x Hx. rewrite znth_cons_pos by lia. f_equal. lia. }
+    assert (Hz0 : znth 0 (g :: r) (pos - pos) = g).
+    { replace (pos - pos) with 0 by lia. reflexivity. }
+    destruct (Z.eqb_spec g 0) as [Hg|Hg].
+    + assert (Hpre : match @None Z with Some a => pos <= a < pos + 1 | None => pos <= pos + 1 end) by lia.
+      destruct (IH (pos + 1) None pos Hpre) as (S1 & B1 & R1). clear Hpre.
+      destruct run as [a|]; cbn [app].
+      * split; [cbn [sorted_from idr fst snd]; split; [lia|]; split; [lia|]; replace (pos - 1 + 1) with pos by lia; exact S1|].
+        split.
+        -- intros ab [<-|Hi]; [cbn [snd]; lia|]. apply B1 in Hi. lia.
+        -- intros x. rewrite in_ranges_cons, Bool.orb_true_iff, R1, Bool.andb_true_iff, !Z.leb_le.
+           destruct (Z.eq_dec x pos) as [->|Hne]; [rewrite Hz0; lia|].
+           destruct (Z_lt_dec pos x) as [Hlt|Hge]; [rewrite Hz by exact Hlt; lia|lia].
+      * split; [apply (sorted_from_le idr _ pos lo S1); lia|].
+        split.
+        -- intros ab Hi. apply B1 in Hi. lia.
+        -- intros x. rewrite R1.
+           destruct (Z.eq_dec x pos) as [->|Hne]; [rewrite Hz0; lia|].
+           destruct (Z_lt_dec pos x) as [Hlt|Hge]; [rewrite Hz by exact Hlt; lia|lia].
+    + destruct run as [a|].
+      * assert (Hpre : match Some a with Some a => lo <= a < pos + 1 | None => lo <= pos + 1 end) by lia.
+        destruct (IH (pos + 1) (Some a) lo Hpre) as (S1 & B1 & R1). clear Hpre.
+        split; [exact S1|]. split; [intros ab Hi; apply B1 in Hi; lia|].
+        intros x. rewrite R1.
+        destruct (Z.eq_dec x pos) as [->|Hne]; [rewrite Hz0; lia|].
+        destruct (Z_lt_dec pos x) as [Hlt|Hge]; [rewrite Hz by exact Hlt; lia|lia].
+      * assert (Hpre : match Some pos with Some a => lo <= a < pos + 1 | None => lo <= pos + 1 end) by lia.
+        destruct (IH (pos + 1) (Some pos) lo Hpre) as (S1 & B1 & R1). clear Hpre.
+        split; [exact S1|]. split; [intros ab Hi; apply B1 in Hi; lia|].
+        intros x. rewrite R1.
+        destruct (Z.eq_dec x pos) as [->|Hne]; [rewrite Hz0; lia|].
+        destruct (Z_lt_dec pos x) as [Hlt|Hge]; [rewrite Hz by exact Hlt; lia|lia].
+Qed.
+
+Lemma seg4_ranges_spec e lo : wf_seg4 e = true -> lo <= s4_start e ->
+  sorted_from idr lo (seg4_ranges e) /\
+  (forall ab, In ab (seg4_ranges e) -> snd ab <= s4_end e) /\
+  (forall x, in_ranges (seg4_ranges e) x = true <-> contains se4 e x /\ mp4 e x = true).
+Proof.
+  intros H Hlo. apply wf_seg4_prop in H. destruct H as (H1 & H2 & H3 & H4 & H5).
+  unfold seg4_ranges, mp4, contains, se4. cbn [fst snd].
+  destruct (s4_idx e) as [ix|].
+  - destruct H5 as (Hl & _).
+    destruct (nz_runs_spec ix (s4_start e) None lo Hlo) as (S1 & B1 & R1).
+    split; [exact S1|]. split; [intros ab Hi; apply B1 in Hi; lia|].
+    intros x. rewrite R1, Bool.negb_true_iff, Z.eqb_neq. lia.
+  - cbn [sorted_from idr fst snd]. split; [lia|]. split.
+    + intros ab [<-|[]]. cbn [snd]. lia.
+    + intros x. rewrite in_ranges_one. intuition.
+Qed.
+
+Lemma ranges4_flat s : forall lo, wf_cmap4_from lo s = true ->
+  sorted_from idr lo (flat_map seg4_ranges s) /\
+  (forall ab, In ab (flat_map seg4_ranges s) -> snd ab <= 65535) /\
+  (forall x, in_ranges (flat_map seg4_ranges s) x = true <->
+             exists e, In e s /\ contains se4 e x /\ mp4 e x = true).
+Proof.
+  induction s as [|e r IH]; intros lo H; cbn [wf_cmap4_from] in H.
+  - split; [exact I|]. split; [intros ab []|]. intros x. cbn [flat_map in_ranges existsb].
+    split; [discriminate|intros (e & [] & _)].
+  - apply andb_prop in H. destruct H as (H & H3). apply andb_prop in H. destruct H as (H1 & H2).
+    apply Z.leb_le in H1. pose proof (wf_seg4_prop _ H2) as (P1 & P2 & P3 & _).
+    destruct (seg4_ranges_spec e lo H2 H1) as (S1 & B1 & R1).
+    destruct (IH _ H3) as (S2 & B2 & R2).
+    cbn [flat_map]. split.
+    + apply (sorted_app idr _ lo (s4_end e + 1) _ S1); [|lia|exact S2].
+      intros ab Hi. apply B1 in Hi. unfold idr. lia.
+    + split.
+      * intros ab Hi. apply in_app_iff in Hi. destruct Hi as [Hi|Hi]; [apply B1 in Hi; lia|apply B2; exact Hi].
+      * intros x. rewrite in_ranges_app, Bool.orb_true_iff, R1, R2. split.
+        -- intros [(Hc & Hm)|(e' & He' & Hc & Hm)].
+           ++ exists e. split; [left; reflexivity|]. split; assumption.
+           ++ exists e'. split; [right; exact He'|]. split; assumption.
+        -- intros (e' & [<-|He'] & Hc & Hm).
+           ++ left. split; assumption.
+           ++ right. exists e'. split; [exact He'|]. split; assumption.
+Qed.
+
+(* RuneRanges of a well-formed format 4 subtable: nothing is merged *)
+Lemma rune_ranges4_flat s : wf_cmap4 s = true -> rune_ranges4 s = flat_map seg4_ranges s.
+Proof.
+  intros H. destruct (ranges4_flat s 0 H) as (S1 & _ & _).
+  unfold rune_ranges4. apply (rune_ranges_sep 0). exact S1.
+Qed.
+
+(* ... and what newCoveragesFromCmapRange requires of them: sorted, disjoint, non-empty, below 2^24 *)
+Lemma rune_ranges4_ok s : wf_cmap4 s = true -> ranges_ok (rune_ranges4 s) = true.
+Proof.
+  intros H. rewrite (rune_ranges4_flat s H). destruct (ranges4_flat s 0 H) as (S1 & B1 & _).
+  unfold ranges_ok. apply sorted_ranges_bool; [exact S1|].
+  intros ab Hi. apply B1 in Hi. lia.
 Qed.
 
 Lemma rune_ranges4_eq_domain : forall s, wf_cmap4 s = true -> ranges_are_domain (rune_ranges4 s) (lookup4 s).
 Proof.
   intros s H. destruct (wf_cmap4_sorted _ _ H) as (Hs & Hwf).
-  apply (generic_ranges se4 glyph4 _ 0 s Hs). apply lookup4_char. exact H.
+  intros r Hr. rewrite (rune_ranges4_flat s H).
+  destruct (ranges4_flat s 0 H) as (_ & _ & R1). rewrite R1.
+  symmetry. apply (generic_domain se4 glyph4 mp4 _ 0 s Hs); [apply lookup4_char; exact H|exact Hr].
 Qed.
 
 (* ------------------------------------------------------------------------------------------ *)
@@ -607,10 +817,9 @@ Proof.
   unfold lookup6. destruct (Z.ltb_spec r (c6_first s)) as [Hlt|Hge].
   - destruct (Z.leb_spec (c6_first s) r); [lia|reflexivity].
   - destruct (Z.leb_spec (c6_first s) r); [|lia]. cbn [andb].
-    rewrite sint32_small by lia.
+    destruct (Z.ltb_spec (r - c6_first s) 0); [lia|]. cbn [orb].
     destruct (Z.leb_spec (zlen (c6_entries s)) (r - c6_first s));
-      destruct (Z.ltb_spec r (c6_first s + zlen (c6_entries s))); try lia; [reflexivity|].
-    destruct (Z.ltb_spec (r - c6_first s) 0); [lia|reflexivity].
+      destruct (Z.ltb_spec r (c6_first s + zlen (c6_entries s))); try lia; reflexivity.
 Qed.
 
 Lemma iter6_eq_lookup6 : forall s, wf_cmap6 s = true -> iter_agrees (iter6 s) (lookup6 s).
